@@ -3,12 +3,11 @@ EXTENDS Replication, Json, IOUtils
 
 CONSTANTS MaxGen, NDig
 MCPool == [d \in Docs |-> {[g |-> g, x |-> x] : g \in 1..MaxGen, x \in 1..NDig}]
-(* protocol and direction come from the environment (C06_PROTO = v3 | v4, C06_DIR = push | pull | pushAndPull) so that one
-   set of cfg files serves the six combinations *)
-EnvProto == IF "C06_PROTO" \in DOMAIN IOEnv THEN IOEnv.C06_PROTO ELSE "v3"
-EnvDirs == IF "C06_DIR" \in DOMAIN IOEnv
-           THEN (CASE IOEnv.C06_DIR = "push" -> {"push"} [] IOEnv.C06_DIR = "pull" -> {"pull"} [] OTHER -> {"push", "pull"})
-           ELSE {"push", "pull"}
+(* all six configurations are explored unless the environment restricts them (C06_PROTO = v3 | v4, C06_DIR = push | pull | pushAndPull) *)
+EnvProtos == IF "C06_PROTO" \in DOMAIN IOEnv /\ IOEnv.C06_PROTO \in {"v3", "v4"} THEN {IOEnv.C06_PROTO} ELSE {"v3", "v4"}
+EnvDirSets == IF "C06_DIR" \in DOMAIN IOEnv /\ IOEnv.C06_DIR \in {"push", "pull", "pushAndPull"}
+              THEN (CASE IOEnv.C06_DIR = "push" -> {{"push"}} [] IOEnv.C06_DIR = "pull" -> {{"pull"}} [] OTHER -> {{"push", "pull"}})
+              ELSE {{"push"}, {"pull"}, {"push", "pull"}}
 D1 == {1}
 D2 == {1, 2}
 
@@ -17,7 +16,7 @@ D2 == {1, 2}
 PoolNotExhausted ==
   edits < MaxEdits => \A p \in Peers, d \in Docs :
        LET s == doc[p][d] IN
-       IF Proto = "v3"
+       IF proto = "v3"
        THEN /\ Cands(revs, d, s.cur, 99, FALSE, s.cur.g + 1) # {}
             /\ Cands(revs, d, s.cur, 0, TRUE, s.cur.g + 1) # {}
        ELSE VersFor(p, d) # {}
@@ -29,10 +28,10 @@ PoolNotExhausted ==
 Waiting == Len(hist) > 0 /\ hist[Len(hist)].a = "Wait"
 LowMsg(x) == CHOOSE m \in msgs[x] : \A o \in msgs[x] : m.seq <= o.seq
 Busy(x) == msgs[x] # {} \/ NextSeq(x) # 0
-DetDir == IF "push" \in Dirs /\ Busy("push") THEN "push" ELSE "pull"
+DetDir == IF "push" \in dirs /\ Busy("push") THEN "push" ELSE "pull"
 DetRepl ==
   LET x == DetDir IN
-  /\ x \in Dirs /\ Busy(x)
+  /\ x \in dirs /\ Busy(x)
   /\ IF msgs[x] # {}
      THEN LET m == LowMsg(x) IN
           CASE m.st = "offered" -> ImplAnswer(x, m)
@@ -59,10 +58,9 @@ KindsFor(s) == IF ~Exists(s) THEN {"create"} ELSE IF s.del THEN {"resurrect"} EL
 SimWrite == LET p == RandomElement(Peers)
                 d == RandomElement(Docs)
             IN Write(p, d, RandomElement(KindsFor(doc[p][d])))
-SimEnv == \/ SimWrite \/ SimWrite
+SimEnv == \/ SimWrite \/ SimWrite \/ SimWrite \/ SimWrite
           \/ (IF running THEN BeginWait ELSE Start)
-          \/ (IF running THEN BeginWait ELSE Start)
-          \/ Stop
+          \/ (IF running /\ edits > 0 THEN Stop ELSE Start)
 SimNext ==
   /\ Len(hist) < MaxSteps
   /\ IF Waiting THEN (IF Quiescent THEN EndWait ELSE DetRepl) ELSE SimEnv
@@ -70,7 +68,8 @@ SimSpec == Init /\ [][SimNext]_vars
 
 (* a behaviour is exported when it is full, or when nothing more can be added *)
 Interesting == \E i \in 1..Len(hist) : hist[i].a = "Wait"
+DirName == IF dirs = AllDirs THEN "pushAndPull" ELSE IF dirs = {"push"} THEN "push" ELSE "pull"
 BehaviourExport ==
   (Len(hist) = MaxSteps /\ Interesting) =>
-     PrintT(<<"BEH", ToJson([steps |-> hist])>>)
+     PrintT(<<"BEH", ToJson([proto |-> proto, dir |-> DirName, steps |-> hist])>>)
 =============================================================================
